@@ -1986,7 +1986,11 @@ pub fn gen_c04_liveness(rng: &mut Rng, _tier: Tier) -> Value {
         }
         producers.push(Value::Array(ops));
     }
-    producers.push(json!([{"op":"pressure","target": (cap - 1).max(1) - rng.below(2).min(cap.saturating_sub(2)), "max": 40 * bound, "others_in_flight": 0}]));
+    // (a third of the plans keep the queue exactly full - as many entries outstanding as it holds, never one more -
+    // so that the "capacity more pops" count-down of a flush request has no slack at all; from a copy of the generator)
+    let brim = rng.clone().next_u64() % 3 == 0;
+    let target = if brim { cap } else { (cap - 1).max(1) - rng.below(2).min(cap.saturating_sub(2)) };
+    producers.push(json!([{"op":"pressure","target": target, "max": 40 * bound, "others_in_flight": 0}]));
     if rng.chance(0.5) {
         // later requests must not starve earlier ones
         producers.push(json!([{"op":"flush_storm","max": 40 * bound}]));
